@@ -486,4 +486,462 @@ theorem no_deadlock (sys : Sys) (sched : List Nat) :
     | readDone c hp ho hreg hv hr => have := ho.1; rw [hnone] at this; cases this
     | written l' hp ho hv hr => have := ho.1; rw [hnone] at this; cases this
 
+/-! ### no lost update -/
+
+/-- `g 0 + … + g (n-1)` -/
+def total : Nat → (Nat → Nat) → Nat
+  | 0, _ => 0
+  | n + 1, g => total n g + g n
+
+theorem total_congr {n : Nat} {g h : Nat → Nat} (H : ∀ t, t < n → g t = h t) : total n g = total n h := by
+  induction n with
+  | zero => rfl
+  | succ n ih =>
+    simp only [total]
+    rw [ih (fun t ht => H t (Nat.lt_succ_of_lt ht)), H n (Nat.lt_succ_self n)]
+
+theorem total_front (n : Nat) (g : Nat → Nat) : total (n + 1) g = g 0 + total n (fun t => g (t + 1)) := by
+  induction n with
+  | zero => simp [total]
+  | succ n ih =>
+    rw [total, ih]
+    simp only [total]
+    omega
+
+theorem total_getD (g : List Closure → Nat) (l : List (List Closure)) :
+    total l.length (fun t => g (l.getD t [])) = (l.map g).sum := by
+  induction l with
+  | nil => rfl
+  | cons a r ih =>
+    rw [List.length_cons, total_front]
+    simp only [List.map_cons, List.sum_cons]
+    rw [← ih]
+    simp
+
+theorem total_upd {α : Type} (n : Nat) (f : Nat → α) (g : α → Nat) (t0 : Nat) (a : α) (h : t0 < n) :
+    total n (fun t => g (upd f t0 a t)) + g (f t0) = total n (fun t => g (f t)) + g a := by
+  induction n with
+  | zero => omega
+  | succ n ih =>
+    simp only [total]
+    by_cases e : t0 = n
+    · subst e
+      have : total t0 (fun t => g (upd f t0 a t)) = total t0 (fun t => g (f t)) :=
+        total_congr (fun t ht => by simp [upd_other f a (Nat.ne_of_lt ht)])
+      rw [this, upd_same]
+      omega
+    · have := ih (by omega)
+      rw [upd_other f a (Ne.symm e)]
+      omega
+
+theorem total_zero {n : Nat} {g : Nat → Nat} (H : ∀ t, t < n → g t = 0) : total n g = 0 := by
+  induction n with
+  | zero => rfl
+  | succ n ih => simp only [total]; rw [ih (fun t ht => H t (Nat.lt_succ_of_lt ht)), H n (Nat.lt_succ_self n)]
+
+/-- number of closures of a script that are applied to lock `l` -/
+def cnt (l : Nat) (script : List Closure) : Nat := (script.filter (fun c => c.lock == l)).length
+
+/-- a system in which every closure is the increment `|v| { let old = *v; *v = old + 1; old }` -/
+def AllIncr (sys : Sys) : Prop := ∀ sc, sc ∈ sys.scripts → ∀ c, c ∈ sc → c.f = ⟨1, 1⟩
+
+instance (sys : Sys) : Decidable (AllIncr sys) :=
+  inferInstanceAs (Decidable (∀ sc, sc ∈ sys.scripts → ∀ c, c ∈ sc → c.f = ⟨1, 1⟩))
+
+theorem sstep_incr (n l : Nat) (S : SState) (t0 : Nat)
+    (hin : ∀ t c, c ∈ S.todo t → c.f = ⟨1, 1⟩) (habs : ∀ t, n ≤ t → S.todo t = []) :
+    ((sstep S t0).vals l + (total n (fun t => cnt l ((sstep S t0).todo t)) : Nat)
+        = S.vals l + (total n (fun t => cnt l (S.todo t)) : Nat)) ∧
+      (∀ t c, c ∈ (sstep S t0).todo t → c.f = ⟨1, 1⟩) ∧ (∀ t, n ≤ t → (sstep S t0).todo t = []) := by
+  unfold sstep
+  cases htodo : S.todo t0 with
+  | nil => exact ⟨rfl, hin, habs⟩
+  | cons c rest =>
+    have ht0 : t0 < n := by
+      apply Classical.byContradiction; intro h
+      rw [habs t0 (Nat.le_of_not_lt h)] at htodo; cases htodo
+    have hc : c.f = ⟨1, 1⟩ := hin t0 c (by rw [htodo]; exact List.mem_cons_self)
+    refine ⟨?_, ?_, ?_⟩
+    · have hu := total_upd n S.todo (cnt l) t0 rest ht0
+      rw [htodo] at hu
+      simp only []
+      by_cases e : c.lock = l
+      · subst e
+        have : cnt c.lock (c :: rest) = cnt c.lock rest + 1 := by simp [cnt]
+        rw [this] at hu
+        rw [upd_same, hc]
+        simp only [Rmw.app]
+        omega
+      · have : cnt l (c :: rest) = cnt l rest := by simp [cnt, e]
+        rw [this] at hu
+        rw [upd_other _ _ (Ne.symm e)]
+        omega
+    · intro t c' hc'
+      simp only [] at hc'
+      by_cases e : t = t0
+      · subst e; rw [upd_same] at hc'; exact hin t c' (by rw [htodo]; exact List.mem_cons_of_mem _ hc')
+      · rw [upd_other _ _ e] at hc'; exact hin t c' hc'
+    · intro t ht
+      simp only []
+      have e : t ≠ t0 := by omega
+      rw [upd_other _ _ e]; exact habs t ht
+
+theorem serial_incr (n l : Nat) (order : List Nat) : ∀ (S : SState),
+    (∀ t c, c ∈ S.todo t → c.f = ⟨1, 1⟩) → (∀ t, n ≤ t → S.todo t = []) →
+    (serial S order).vals l + (total n (fun t => cnt l ((serial S order).todo t)) : Nat)
+      = S.vals l + (total n (fun t => cnt l (S.todo t)) : Nat) := by
+  induction order with
+  | nil => intro S _ _; rfl
+  | cons t0 r ih =>
+    intro S hin habs
+    obtain ⟨h1, h2, h3⟩ := sstep_incr n l S t0 hin habs
+    have := ih (sstep S t0) h2 h3
+    simp only [serial, List.foldl_cons] at this ⊢
+    omega
+
+/-- **No lost update.**  If every closure is an increment then, for every schedule that runs all
+scripts to completion, the final value of every lock is its initial value plus the number of
+closures (of all threads) that were applied to it: every one of the increments took effect. -/
+theorem no_lost_update (sys : Sys) (hincr : AllIncr sys) (sched : List Nat) (l : Nat) :
+    let s := run (init LockGen.applyShape sys) sched
+    Finished sys.scripts.length s →
+      s.vals l = sys.init.getD l 0 + ((sys.scripts.map (cnt l)).sum : Nat) := by
+  intro s hF
+  obtain ⟨hv, _, ht, _⟩ := serialisable sys sched hF
+  have h := serial_incr sys.scripts.length l s.acqs (sinit sys)
+    (by
+      intro t c hc
+      simp only [sinit, List.getD_eq_getElem?_getD] at hc
+      cases hg : sys.scripts[t]? with
+      | none => rw [hg] at hc; cases hc
+      | some sc => rw [hg] at hc; exact hincr sc (List.mem_of_getElem? hg) c hc)
+    (by intro t ht; simp [sinit, List.getElem?_eq_none ht])
+  rw [total_zero (g := fun t => cnt l ((serial (sinit sys) s.acqs).todo t))
+    (fun t _ => by show cnt l ((serial (sinit sys) s.acqs).todo t) = 0; rw [ht t]; rfl)] at h
+  have hs : total sys.scripts.length (fun t => cnt l ((sinit sys).todo t)) = (sys.scripts.map (cnt l)).sum :=
+    total_getD (cnt l) sys.scripts
+  rw [hs] at h
+  rw [hv l]
+  simpa [sinit] using h
+
+/-! ### no lost update, at every moment -/
+
+theorem ThreadOk.reg_of_write {s : State} {S : SState} {t l : Nat} {f : Rmw} {rest : List Micro}
+    (h : ThreadOk s S t) (hprog : (s.thr t).prog = .write l f :: rest) : (s.thr t).reg = s.vals l := by
+  cases h with
+  | idle hp ho hr =>
+    rw [hprog] at hp
+    cases htodo : S.todo t with
+    | nil => rw [htodo] at hp; cases hp
+    | cons c r => rw [htodo, compile_cons] at hp; cases hp
+  | acquired c hp ho hv hr => rw [hprog] at hp; cases hp
+  | readDone c hp ho hreg hv hr =>
+    rw [hprog] at hp; injection hp with h1 _; injection h1 with h1 _; subst h1; exact hreg
+  | written l' hp ho hv hr => rw [hprog] at hp; cases hp
+
+theorem mem_compile_write {l : Nat} {f : Rmw} {script : List Closure}
+    (h : Micro.write l f ∈ compile good script) : ∃ c, c ∈ script ∧ c.f = f := by
+  induction script with
+  | nil => simp [compile] at h
+  | cons c r ih =>
+    rw [compile_cons] at h
+    simp only [List.mem_cons, reduceCtorEq, false_or] at h
+    rcases h with h | h
+    · injection h with _ h2; exact ⟨c, List.mem_cons_self, h2.symm⟩
+    · obtain ⟨c', hc', hf⟩ := ih h; exact ⟨c', List.mem_cons_of_mem _ hc', hf⟩
+
+theorem step_prog_sub {s s' : State} {t0 : Nat} (h : step s t0 = some s') (t : Nat) (m : Micro)
+    (hm : m ∈ (s'.thr t).prog) : m ∈ (s.thr t).prog := by
+  by_cases e : t = t0
+  · subst e
+    unfold step at h
+    split at h
+    · cases h
+    · rename_i hp
+      split at h
+      · cases h
+      · cases h; rw [hp]; simp at hm; exact List.mem_cons_of_mem _ hm
+    · rename_i hp; cases h; rw [hp]; simp at hm; exact List.mem_cons_of_mem _ hm
+    · rename_i hp; cases h; rw [hp]; simp at hm; exact List.mem_cons_of_mem _ hm
+    · rename_i hp
+      split at h
+      · cases h; rw [hp]; simp at hm; exact List.mem_cons_of_mem _ hm
+      · cases h
+  · rw [step_thr_other h e] at hm; exact hm
+
+/-- everything needed to count: the invariant, "all pending writes are increments", and the count -/
+structure CountInv (sys : Sys) (s : State) : Prop where
+  inv : Inv sys s
+  incr : ∀ t l f, Micro.write l f ∈ (s.thr t).prog → f = ⟨1, 1⟩
+  count : ∀ l, s.vals l = sys.init.getD l 0 + (s.commits l : Nat)
+
+theorem countInv_init (sys : Sys) (hincr : AllIncr sys) : CountInv sys (init good sys) where
+  inv := inv_init sys
+  incr := by
+    intro t l f h
+    obtain ⟨c, hc, hf⟩ := mem_compile_write h
+    simp only [List.getD_eq_getElem?_getD] at hc
+    cases hg : sys.scripts[t]? with
+    | none => rw [hg] at hc; cases hc
+    | some sc => rw [hg] at hc; rw [← hf]; exact hincr sc (List.mem_of_getElem? hg) c hc
+  count := by intro l; simp [init]
+
+theorem countInv_step {sys : Sys} {s s' : State} {t0 : Nat} (hC : CountInv sys s) (h : step s t0 = some s') :
+    CountInv sys s' := by
+  refine ⟨inv_step hC.inv h, fun t l f hm => hC.incr t l f (step_prog_sub h t _ hm), ?_⟩
+  have hcount := hC.count
+  have hT := hC.inv.thr t0
+  unfold step at h
+  split at h
+  · cases h
+  · split at h
+    · cases h
+    · cases h; exact hcount
+  · cases h; exact hcount
+  · rename_i l f rest hprog
+    cases h
+    have hreg := hT.reg_of_write hprog
+    have hf := hC.incr t0 l f (by rw [hprog]; exact List.mem_cons_self)
+    intro l'
+    by_cases e : l' = l
+    · subst e
+      have := hcount l'
+      simp only [upd_same, hf, hreg, Rmw.app]
+      omega
+    · simp only [upd_other _ _ e]; exact hcount l'
+  · split at h
+    · cases h; exact hcount
+    · cases h
+
+theorem countInv_run {sys : Sys} (sched : List Nat) : ∀ {s : State}, CountInv sys s → CountInv sys (run s sched) := by
+  induction sched with
+  | nil => intro s h; exact h
+  | cons t r ih =>
+    intro s h
+    apply ih
+    show CountInv sys (exec s t)
+    unfold exec
+    cases hs : step s t with
+    | none => exact h
+    | some s' => exact countInv_step h hs
+
+/-- **No lost update, at every moment.**  If every closure is an increment then in every reachable
+state (any schedule, finished or not) the value of every lock is its initial value plus the
+number of increments completed on it so far (`commits`: one per executed write). -/
+theorem no_lost_update_so_far (sys : Sys) (hincr : AllIncr sys) (sched : List Nat) (l : Nat) :
+    let s := run (init LockGen.applyShape sys) sched
+    s.vals l = sys.init.getD l 0 + (s.commits l : Nat) := by
+  rw [shape_is_lock_call_unlock]
+  exact (countInv_run sched (countInv_init sys hincr)).count l
+
+/-! ### the model allows exactly the serial outcomes -/
+
+/-- quiescent state of the concurrent semantics that corresponds to a serial state -/
+structure Quiet (s : State) (S : SState) : Prop where
+  prog : ∀ t, (s.thr t).prog = compile good (S.todo t)
+  rets : ∀ t, (s.thr t).rets = S.rets t
+  owner : ∀ l, s.owner l = none
+  vals : ∀ l, s.vals l = S.vals l
+
+theorem quiet_atomic {s : State} {S : SState} (t : Nat) (h : Quiet s S) :
+    Quiet (run s [t, t, t, t]) (sstep S t) := by
+  obtain ⟨hp, hr, ho, hv⟩ := h
+  cases htodo : S.todo t with
+  | nil =>
+    have hnil : (s.thr t).prog = [] := by rw [hp t, htodo]; rfl
+    have he : exec s t = s := by unfold exec; rw [step_nil hnil]; rfl
+    have : run s [t, t, t, t] = s := by simp [run, he]
+    rw [this]
+    unfold sstep; rw [htodo]
+    exact ⟨hp, hr, ho, hv⟩
+  | cons c rest =>
+    have hprog := hp t
+    rw [htodo, compile_cons] at hprog
+    have e1 : exec s t =
+        { s with
+          owner := upd s.owner c.lock (some t)
+          thr := upd s.thr t ⟨.read c.lock :: .write c.lock c.f :: .release c.lock :: compile good rest,
+            (s.thr t).reg, (s.thr t).rets⟩
+          acqs := s.acqs ++ [t] } := by
+      unfold exec step; rw [hprog]; simp [ho c.lock]
+    have e : run s [t, t, t, t] =
+        { s with
+          vals := upd s.vals c.lock (c.f.app (s.vals c.lock))
+          owner := upd (upd s.owner c.lock (some t)) c.lock none
+          thr := upd (upd (upd (upd s.thr t
+            ⟨.read c.lock :: .write c.lock c.f :: .release c.lock :: compile good rest, (s.thr t).reg, (s.thr t).rets⟩) t
+            ⟨.write c.lock c.f :: .release c.lock :: compile good rest, s.vals c.lock, (s.thr t).rets⟩) t
+            ⟨.release c.lock :: compile good rest, s.vals c.lock, (s.thr t).rets ++ [s.vals c.lock]⟩) t
+            ⟨compile good rest, s.vals c.lock, (s.thr t).rets ++ [s.vals c.lock]⟩
+          acqs := s.acqs ++ [t]
+          commits := upd s.commits c.lock (s.commits c.lock + 1) } := by
+      simp only [run, List.foldl_cons, List.foldl_nil, e1]
+      simp [exec, step]
+    rw [e]
+    unfold sstep; rw [htodo]
+    constructor
+    · intro t'
+      by_cases ht : t' = t
+      · subst ht; simp
+      · simp [upd_other _ _ ht, hp t']
+    · intro t'
+      by_cases ht : t' = t
+      · subst ht; simp [hr t', hv c.lock]
+      · simp [upd_other _ _ ht, hr t']
+    · intro l
+      by_cases hl : l = c.lock
+      · subst hl; simp
+      · simp [upd_other _ _ hl, ho l]
+    · intro l
+      by_cases hl : l = c.lock
+      · subst hl; simp [hv c.lock]
+      · simp [upd_other _ _ hl, hv l]
+
+theorem run_append (s : State) (a b : List Nat) : run s (a ++ b) = run (run s a) b := by
+  simp [run, List.foldl_append]
+
+theorem quiet_serial (order : List Nat) : ∀ {s : State} {S : SState}, Quiet s S →
+    Quiet (run s (order.flatMap fun t => [t, t, t, t])) (serial S order) := by
+  induction order with
+  | nil => intro s S h; exact h
+  | cons t r ih =>
+    intro s S h
+    rw [List.flatMap_cons, run_append]
+    exact ih (quiet_atomic t h)
+
+/-- **Every serial order is a behaviour of the model** (converse of `serialisable`): for every order
+there is a schedule whose run produces exactly the values, returned values and remaining
+scripts of the serial execution in that order.  So the histories the model allows are exactly
+the outcomes of serial executions — what `lockcheck` decides. -/
+theorem serial_realisable (sys : Sys) (order : List Nat) :
+    ∃ sched, let s := run (init LockGen.applyShape sys) sched
+      (∀ l, s.vals l = (serial (sinit sys) order).vals l) ∧
+      (∀ t, (s.thr t).rets = (serial (sinit sys) order).rets t) ∧
+      (∀ t, (s.thr t).prog = compile LockGen.applyShape ((serial (sinit sys) order).todo t)) := by
+  rw [shape_is_lock_call_unlock]
+  refine ⟨order.flatMap fun t => [t, t, t, t], ?_⟩
+  have h := quiet_serial order (s := init good sys) (S := sinit sys)
+    ⟨fun _ => rfl, fun _ => rfl, fun _ => rfl, fun _ => rfl⟩
+  exact ⟨h.vals, h.rets, h.prog⟩
+
+/-! ### progress: every reachable state can be run to completion -/
+
+/-- micro-steps still to be executed by the first `n` threads -/
+def remaining (n : Nat) (s : State) : Nat := total n (fun t => (s.thr t).prog.length)
+
+theorem step_shape {s s' : State} {t : Nat} (h : step s t = some s') :
+    ∃ m th', (s.thr t).prog = m :: th'.prog ∧ s'.thr = upd s.thr t th' := by
+  unfold step at h
+  split at h
+  · cases h
+  · rename_i hp
+    split at h
+    · cases h
+    · cases h; exact ⟨_, _, hp, rfl⟩
+  · rename_i hp; cases h; exact ⟨_, _, hp, rfl⟩
+  · rename_i hp; cases h; exact ⟨_, _, hp, rfl⟩
+  · rename_i hp
+    split at h
+    · cases h; exact ⟨_, _, hp, rfl⟩
+    · cases h
+
+theorem step_remaining {n : Nat} {s s' : State} {t : Nat} (h : step s t = some s') (ht : t < n) :
+    remaining n s' + 1 = remaining n s := by
+  obtain ⟨m, th', hp, hthr⟩ := step_shape h
+  have := total_upd n s.thr (fun th => th.prog.length) t th' ht
+  simp only [remaining, hthr]
+  rw [hp, List.length_cons] at this
+  omega
+
+theorem can_finish_aux (sys : Sys) : ∀ (k : Nat) (sched : List Nat),
+    remaining sys.scripts.length (run (init good sys) sched) = k →
+    ∃ sched', Finished sys.scripts.length (run (init good sys) (sched ++ sched')) := by
+  intro k
+  induction k using Nat.strongRecOn with
+  | _ k ih =>
+    intro sched hk
+    by_cases hF : Finished sys.scripts.length (run (init good sys) sched)
+    · exact ⟨[], by rw [List.append_nil]; exact hF⟩
+    · have hd := no_deadlock sys sched
+      rw [shape_is_lock_call_unlock] at hd
+      obtain ⟨t, ht⟩ := hd hF
+      cases hs : step (run (init good sys) sched) t with
+      | none => rw [hs] at ht; cases ht
+      | some s' =>
+        have hlt : t < sys.scripts.length := by
+          apply Classical.byContradiction; intro hge
+          rw [step_nil (absent_thread sys sched t (Nat.le_of_not_lt hge))] at hs; cases hs
+        have hrun : run (init good sys) (sched ++ [t]) = s' := by
+          rw [run_append]
+          show exec (run (init good sys) sched) t = s'
+          unfold exec; rw [hs]; rfl
+        have hdec := step_remaining hs hlt
+        obtain ⟨sched', hfin⟩ := ih (remaining sys.scripts.length s') (by omega) (sched ++ [t]) (by rw [hrun])
+        exact ⟨t :: sched', by rw [List.append_assoc] at hfin; exact hfin⟩
+
+/-- **Every reachable state can be run to completion** (no deadlock, ever): whatever the schedule
+did so far, it can be extended so that all scripts finish.  Every step of a thread consumes one
+of its micro-steps, so a scheduler that keeps picking enabled threads gets there in exactly
+`remaining` steps. -/
+theorem always_can_finish (sys : Sys) (sched : List Nat) :
+    ∃ sched', Finished sys.scripts.length (run (init LockGen.applyShape sys) (sched ++ sched')) := by
+  rw [shape_is_lock_call_unlock]
+  exact can_finish_aux sys _ sched rfl
+
+/-! ### non-vacuity: concrete systems, decided by evaluation of the model -/
+
+/-- two threads hammering one lock with two increments each -/
+def sys2 : Sys := ⟨[0], [[incr 0, incr 0], [incr 0, incr 0]]⟩
+/-- three threads, two locks, closures that do not commute (`2v+1`, `3v`, `v+1`, `v+5`, `2v`) -/
+def sys3 : Sys := ⟨[1, 10], [[⟨0, ⟨2, 1⟩⟩, ⟨1, ⟨1, 5⟩⟩], [⟨0, ⟨3, 0⟩⟩], [⟨1, ⟨2, 0⟩⟩, ⟨0, ⟨1, 1⟩⟩]]⟩
+/-- an uneven schedule with plenty of contention (blocked picks are no-ops) -/
+def sched2 : List Nat := [0, 1, 1, 0, 1, 0, 0, 1, 1, 1, 0, 0, 0, 1, 1, 1, 1, 0, 0, 0, 0, 1, 1, 1, 1, 1, 0, 0, 0, 0]
+def sched3 : List Nat := (List.replicate 12 [2, 0, 1, 1, 0]).flatten
+
+-- `serialisable` / `no_lost_update` are not vacuous: these schedules do run everything to completion …
+example : Finished 2 (run (init LockGen.applyShape sys2) sched2) := by decide +kernel
+example : Finished 3 (run (init LockGen.applyShape sys3) sched3) := by decide +kernel
+-- … under real contention: after thread 0 took the lock, thread 1 is blocked (and thread 0 is not)
+example : (step (run (init LockGen.applyShape sys2) [0]) 1).isSome = false ∧
+    (step (run (init LockGen.applyShape sys2) [0]) 0).isSome = true := by decide +kernel
+-- … and the outcomes are the serial ones, in acquisition order
+example : (run (init LockGen.applyShape sys2) sched2).acqs = [0, 1, 1, 0] ∧
+    outcome sys2 (run (init LockGen.applyShape sys2) sched2) = ([[0, 3], [1, 2]], [4]) ∧
+    serialOutcome sys2 [0, 1, 1, 0] = some ([[0, 3], [1, 2]], [4]) := by decide +kernel
+example : (run (init LockGen.applyShape sys3) sched3).acqs = [2, 0, 1, 0, 2] ∧
+    outcome sys3 (run (init LockGen.applyShape sys3) sched3) = ([[1, 20], [3], [10, 9]], [10, 25]) ∧
+    serialOutcome sys3 [2, 0, 1, 0, 2] = some ([[1, 20], [3], [10, 9]], [10, 25]) := by decide +kernel
+-- a different order gives a different outcome: the closures of `sys3` do not commute
+example : serialOutcome sys3 [1, 0, 2, 0, 2] = some ([[3, 20], [1], [10, 7]], [8, 25]) := by decide +kernel
+-- `no_lost_update`: its hypothesis holds for `sys2`, and the count is 4
+example : AllIncr sys2 := by decide +kernel
+example : (run (init LockGen.applyShape sys2) sched2).vals 0 = 0 + ((sys2.scripts.map (cnt 0)).sum : Nat) := by decide +kernel
+-- `mutual_exclusion`: states with a thread inside a call are reachable (both micro-steps of the call)
+example : inCall (run (init LockGen.applyShape sys2) [0]) 0 0 = true ∧
+    inCall (run (init LockGen.applyShape sys2) [0, 1, 0]) 0 0 = true ∧
+    inCall (run (init LockGen.applyShape sys2) [0, 1, 0]) 1 0 = false := by decide +kernel
+-- `no_deadlock`: non-final states are reachable, also ones in which a thread is blocked
+example : ¬ Finished 2 (run (init LockGen.applyShape sys2) [0, 1, 0]) := by decide +kernel
+example : ¬ Finished 3 (run (init LockGen.applyShape sys3) [0, 2, 1, 2]) ∧
+    (step (run (init LockGen.applyShape sys3) [0, 2, 1, 2]) 1).isSome = false := by decide +kernel
+
+/-! ### the model discriminates: with another shape of `apply` the same systems lose updates -/
+
+/-- `apply` that copies the value out, releases the lock, runs the closure on the copy and writes
+the copy back in a second critical section would be emitted as this step list … -/
+def earlyRelease : List Step := [.acquire, .release, .call, .acquire, .release]
+
+-- … and then increments read the same value: lost updates (final value 2 instead of 4), the same
+-- value returned twice, and two threads inside a call on the same lock at the same time
+example : Finished 2 (run (init earlyRelease sys2) ([0, 0, 1, 1, 0, 1, 0, 1] ++ sched2 ++ sched2)) ∧
+    outcome sys2 (run (init earlyRelease sys2) ([0, 0, 1, 1, 0, 1, 0, 1] ++ sched2 ++ sched2)) = ([[0, 1], [0, 1]], [2]) := by
+  decide +kernel
+example : inCall (run (init earlyRelease sys2) [0, 0, 1, 1]) 0 0 = true ∧
+    inCall (run (init earlyRelease sys2) [0, 0, 1, 1]) 1 0 = true := by decide +kernel
+-- no serial order produces that outcome (all 6 interleavings of two scripts of length 2)
+example : ∀ order ∈ [[0, 0, 1, 1], [0, 1, 0, 1], [0, 1, 1, 0], [1, 0, 0, 1], [1, 0, 1, 0], [1, 1, 0, 0]],
+    serialOutcome sys2 order ≠ some ([[0, 1], [0, 1]], [2]) := by decide +kernel
+-- an `apply` without any lock
+example : outcome sys2 (run (init [.call] sys2) [0, 1, 0, 1, 0, 1, 0, 1]) = ([[0, 1], [0, 1]], [2]) := by decide +kernel
+
 end Essential.C20
